@@ -321,11 +321,79 @@ def queued_survivors(out, reent):
         F.rmworkdir(work)
 
 
+SPAWNER = r"""
+import sys, os, signal, subprocess
+sys.path.insert(0, sys.argv[1])
+from aiuti.filelock import FileLock
+path, closed, how, pidfile = sys.argv[2], sys.argv[3], sys.argv[4], sys.argv[5]
+if closed != '-':
+    os.close(int(closed))                   # a daemon-like process without one of its standard streams
+l = FileLock(path)
+l.acquire()
+if how == 'popen':
+    pid = subprocess.Popen(['sleep', '30'], close_fds=False).pid
+else:
+    pid = os.spawnv(os.P_NOWAIT, '/bin/sleep', ['sleep', '30'])
+with open(pidfile, 'w') as f:
+    f.write(str(pid))
+os.kill(os.getpid(), signal.SIGKILL)
+"""
+
+
+def holder_with_child(out, closed, how):
+    """The holder starts a long-lived child process while it holds the lock, then dies: the child must not keep
+    the lock alive (the lock's descriptor is not inherited), whatever descriptors the holder had closed."""
+    from aiuti.filelock import FileLock
+    work = F.mkworkdir()
+    case = {'part': 'holder-with-child', 'closed_fd': closed, 'spawn': how}
+    mark(case)
+    out.evaluations += 1
+    child = None
+    try:
+        path = os.path.join(work, 'c.lock')
+        pidfile = os.path.join(work, 'child.pid')
+        devnull = subprocess.DEVNULL      # no pipes: the long-lived child would inherit them and keep them open
+        p = subprocess.run([sys.executable, '-c', SPAWNER, REPO, path, closed, how, pidfile], stdin=devnull,
+                           stdout=devnull, stderr=devnull, timeout=60)
+        try:
+            with open(pidfile) as f:
+                child = int(f.read().strip())
+        except (OSError, ValueError):
+            child = None
+        if p.returncode != -signal.SIGKILL or child is None:
+            out.count('holder-with-child:setup-failed')
+            return
+        t0 = time.time()
+        fresh = FileLock(path)
+        ok = fresh.acquire(timeout=3.0, poll_interval=0.002)
+        if ok:
+            fresh.release()
+        else:
+            out.concrete.append({'case': case, 'what': 'the holder (standard stream %s closed) started a child process '
+                                 'with %s while holding the lock and was SIGKILLed: 3 s later the lock still cannot be '
+                                 'acquired - the child keeps it alive' % (closed, how),
+                                 'signature': {'kind': 'stuck-after-kill', 'part': 'holder-with-child'}})
+        out.extra['worst_acquire_after_kill_s'] = round(max(out.extra.get('worst_acquire_after_kill_s', 0),
+                                                            time.time() - t0), 4)
+        out.traces_validated += 1
+        out.fingerprints.add(fingerprint(case))
+        out.count('holder-with-child')
+    finally:
+        if child is not None:
+            try:
+                os.kill(child, signal.SIGKILL)
+            except OSError:
+                pass
+        F.rmworkdir(work)
+
+
 def _chunk_queued(payload):
     logging.disable(logging.CRITICAL)
     out = Outcome()
     for reent in payload[1]:
         queued_survivors(out, reent)
+    for closed, how in payload[2] if len(payload) > 2 else []:
+        holder_with_child(out, closed, how)
     return out
 
 
@@ -360,7 +428,9 @@ def run(ctx):
                     chunks.append((script, part, ncont, ctx.seed + g))
         if ctx.quick:
             chunks.append((script, idx[::7], 2, ctx.seed))
-    chunks += [('queued', [False]), ('queued', [True])] if ctx.quick else [('queued', [False, True])] * 8
+    chunks += ([('queued', [False], [('0', 'popen'), ('-', 'spawnv')]), ('queued', [True], [('1', 'spawnv'), ('2', 'popen')])]
+               if ctx.quick else
+               [('queued', [False, True], [(c, h) for c in ('-', '0', '1', '2') for h in ('popen', 'spawnv')])] * 4)
     out = run_chunks(_dispatch, chunks, 8 if ctx.quick else ctx.workers, limit_s=240 if ctx.quick else 1800)
     out.exhaustive = True
     return out
@@ -372,6 +442,10 @@ def search(ctx, outcome):
 
 def replay(ctx, payload):
     case = payload.get('case') or (payload.get('first_differing_case') or {}).get('case')
+    if case.get('part') == 'holder-with-child':
+        out = Outcome()
+        holder_with_child(out, case['closed_fd'], case['spawn'])
+        return {'case': case, 'violations': [c['what'] for c in out.concrete], 'fails': bool(out.concrete)}
     if case.get('part') == 'queued-survivors':
         out = Outcome()
         queued_survivors(out, case['reentrant'])
